@@ -503,3 +503,40 @@ def coq_mismatches(case_terms, tag, timeout=1200):
     body = m.group(1)
     tr = [tuple(int(x) for x in t) for t in re.findall(r"\((\d+)(?:%nat)?,\s*(\d+)(?:%nat)?,\s*(\d+)(?:%N)?\)", body)]
     return True, tr, out[-500:]
+
+
+def emit_ro_tie(h, results, ident):
+    """Coq term `first_diff ...` for a two-phase history: calls before the `ro_switch` call run under the writable configuration,
+    the switch is Reopen + Initialize under the read-only configuration, the calls after it run under the read-only configuration.
+    Needs obs rows/tree/tape on every call. Returns None when the run is not comparable."""
+    calls = h["calls"]
+    sw = next((i for i, c in enumerate(calls) if c["op"] == "ro_switch"), None)
+    if sw is None or len(results) < len(calls):
+        return None
+    eh = emit_hist(h, results, sw, ident)
+    if eh is None:
+        return None
+    ccfg, h1, cn = eh
+    uid, gid = ident[0], ident[1]
+    fix = lambda t: t.replace('"UID"', str(uid)).replace("UID", str(uid)).replace("GID", str(gid))
+    cro = ccfg.replace("c_readonly := false", "c_readonly := true")
+    if cro == ccfg:
+        return None
+    h2, obs = [], []
+    for i in range(sw, len(calls)):
+        r = results[i]
+        o = r.get("obs") or {}
+        if "tape_len" not in o or o["tape_len"] % 512 != 0 or "rows" not in o or "tree" not in o:
+            return None
+        if i > sw:
+            h2.append("(%s, {| ev_hb := []; ev_enc := []; ev_now := %s |})" % (cq_call(h, calls[i], -(i + 1)), cq_Z(-(i + 1))))
+        out = OUTC.get(r["out"], "OOther 0")
+        rows = cq_list([cq_row(x, cn) for x in o.get("rows", [])])
+        view = cq_list([cq_entry(e, cn) for e in sorted(o.get("tree", []), key=lambda e: e["path"].encode())])
+        obs.append("{| ob_out := %s; ob_rows := %s; ob_view := %s; ob_blocks := %d |}" % (out, rows, view, o["tape_len"] // 512))
+    root = cq_str(h["config"].get("root") or "/")
+    term = ("(let cw := %s in let cro := %s in let s1 := final cw init_sys %s in\n"
+            "  let s2 := fst (step cro s1 CReopen) in let r := step cro s2 (CInitialize %s) in\n"
+            "  first_diff 0 (observe cro (fst r) (snd r) :: run cro (fst r) %s) %s)"
+            % (ccfg, cro, h1, root, cq_list(h2), cq_list(obs)))
+    return fix(term)
